@@ -125,6 +125,12 @@ fn sibling_routes(kind: &str, b: &[u8], rs: &mut Vec<(&'static str, R)>) {
     let s = std::str::from_utf8(b).ok();
     match kind {
         "uri" => {
+            // built from a scheme
+            if b.last() == Some(&b':') {
+                if let Ok(sc) = iref::uri::SchemeBuf::new(b[..b.len() - 1].to_vec()) {
+                    rs.push(("from_scheme", ok(UriBuf::from_scheme(sc).as_bytes(), b)));
+                }
+            }
             if let Ok(r) = UriRef::new(b) {
                 rs.push(("tf_uriref", match <&Uri>::try_from(r) { Ok(v) => ok(v.as_bytes(), b), Err(e) => er(e.0.as_bytes(), b) }));
                 rs.push(("as_uri", match r.as_uri() { Some(v) => ok(v.as_bytes(), b), None => R::Err }));
@@ -151,9 +157,23 @@ fn sibling_routes(kind: &str, b: &[u8], rs: &mut Vec<(&'static str, R)>) {
             }
             if let Ok(r) = Uri::new(b) {
                 rs.push(("from_uri", ok(r.as_uri_ref().as_bytes(), b)));
+                let ar: &UriRef = r.as_ref();
+                rs.push(("asref_uri", ok(ar.as_bytes(), b)));
+                rs.push(("from_uribuf", ok(UriRefBuf::from(r.to_owned()).as_bytes(), b)));
+            }
+            if let Some(Ok(r)) = s.map(Iri::new) {
+                rs.push(("tf_iri", match <&UriRef>::try_from(r) { Ok(v) => ok(v.as_bytes(), b), Err(e) => er(e.0.as_bytes(), b) }));
+                let rb = IriBuf::new(s.unwrap().to_string()).unwrap();
+                rs.push(("tf_iribuf", match UriRefBuf::try_from(rb.clone()) { Ok(v) => ok(v.as_bytes(), b), Err(e) => er(e.0.as_bytes(), b) }));
+                rs.push(("try_into_uri_ref", match rb.try_into_uri_ref() { Ok(v) => ok(v.as_bytes(), b), Err(e) => er(e.0.as_bytes(), b) }));
             }
         }
         "iri" => {
+            if b.last() == Some(&b':') {
+                if let Ok(sc) = iref::uri::SchemeBuf::new(b[..b.len() - 1].to_vec()) {
+                    rs.push(("from_scheme", ok(IriBuf::from_scheme(sc).as_bytes(), b)));
+                }
+            }
             if let Some(Ok(r)) = s.map(IriRef::new) {
                 rs.push(("tf_iriref", match <&Iri>::try_from(r) { Ok(v) => ok(v.as_bytes(), b), Err(e) => er(e.0.as_bytes(), b) }));
                 rs.push(("as_iri", match r.as_iri() { Some(v) => ok(v.as_bytes(), b), None => R::Err }));
@@ -173,9 +193,30 @@ fn sibling_routes(kind: &str, b: &[u8], rs: &mut Vec<(&'static str, R)>) {
         "iriRef" => {
             if let Ok(r) = UriRef::new(b) {
                 rs.push(("from_uriref", ok(r.as_iri_ref().as_bytes(), b)));
+                let ar: &IriRef = r.as_ref();
+                rs.push(("asref_uriref", ok(ar.as_bytes(), b)));
+                let ab: IriRefBuf = UriRefBuf::new(b.to_vec()).unwrap().into();
+                rs.push(("from_urirefbuf", ok(ab.as_bytes(), b)));
+                let rb = UriRefBuf::new(b.to_vec()).unwrap();
+                let ar2: &IriRef = rb.as_ref();
+                rs.push(("asref_urirefbuf", ok(ar2.as_bytes(), b)));
             }
             if let Some(Ok(r)) = s.map(Iri::new) {
                 rs.push(("from_iri", ok(r.as_iri_ref().as_bytes(), b)));
+                let ar: &IriRef = r.as_ref();
+                rs.push(("asref_iri", ok(ar.as_bytes(), b)));
+                rs.push(("from_iribuf", ok(IriRefBuf::from(r.to_owned()).as_bytes(), b)));
+            }
+            if let Ok(r) = Uri::new(b) {
+                let ar: &IriRef = r.as_ref();
+                rs.push(("asref_uri", ok(ar.as_bytes(), b)));
+                let ai: &Iri = r.as_ref();
+                rs.push(("asref_uri_iri", ok(ai.as_bytes(), b)));
+                let ob = r.to_owned();
+                let ar2: &IriRef = ob.as_ref();
+                let ai2: &Iri = ob.as_ref();
+                rs.push(("asref_uribuf", ok(ar2.as_bytes(), b)));
+                rs.push(("asref_uribuf_iri", ok(ai2.as_bytes(), b)));
             }
         }
         _ => {}
